@@ -445,6 +445,7 @@ func (e *Enc) backEdges(b *ssa.BasicBlock, st *State) {
 				}
 				bc := e.blockCtx(b, st, nil)
 				cond, ok := e.tryEvalIter(li, bc, ex.E)
+				e.noteClause("exit "+ex.Text, ok)
 				if !ok {
 					continue
 				}
@@ -506,6 +507,7 @@ func (e *Enc) backEdges(b *ssa.BasicBlock, st *State) {
 				return inner(n)
 			}
 			cond, ok := e.tryEvalIter(li, bc, it.E)
+			e.noteClause("iteration "+it.Text, ok)
 			if !ok {
 				continue // a name of the clause is not defined on this path (e.g. a comment line)
 			}
@@ -535,8 +537,9 @@ func (e *Enc) iterBinder(li *loopInfo) map[string]CVal { return nil }
 // the start of the current iteration (header state after havoc).
 func (e *Enc) evalIter(li *loopInfo, c *Ctx, x Expr) Term {
 	hc := e.loopCtx(li, li.snap, li.phiSnap, nil)
-	x2 := e.substIter(x, hc)
-	return c.evalBool(x2)
+	c2 := *c
+	c2.iter = hc
+	return c2.evalBool(x)
 }
 
 // tryEvalIter is evalIter that reports (instead of failing) when an identifier is not defined here.
@@ -551,39 +554,6 @@ func (e *Enc) tryEvalIter(li *loopInfo, c *Ctx, x Expr) (t Term, ok bool) {
 		}
 	}()
 	return e.evalIter(li, c, x), true
-}
-
-// substIter replaces iter(e) by a let-bound fresh identifier evaluated in the header context.
-func (e *Enc) substIter(x Expr, hc *Ctx) Expr {
-	switch x := x.(type) {
-	case *ECall:
-		if x.Fn == "iter" {
-			v := hc.eval(x.Args[0])
-			return &evaluated{v}
-		}
-		var as []Expr
-		for _, a := range x.Args {
-			as = append(as, e.substIter(a, hc))
-		}
-		return &ECall{Fn: x.Fn, Args: as}
-	case *EBin:
-		return &EBin{Op: x.Op, L: e.substIter(x.L, hc), R: e.substIter(x.R, hc)}
-	case *EUn:
-		return &EUn{Op: x.Op, X: e.substIter(x.X, hc)}
-	case *ESel:
-		return &ESel{X: e.substIter(x.X, hc), F: x.F}
-	case *EIndex:
-		return &EIndex{X: e.substIter(x.X, hc), I: e.substIter(x.I, hc)}
-	case *EQuant:
-		return &EQuant{Forall: x.Forall, Vars: x.Vars, Body: e.substIter(x.Body, hc)}
-	case *ELet:
-		return &ELet{Name: x.Name, Val: e.substIter(x.Val, hc), Body: e.substIter(x.Body, hc)}
-	case *EUpd:
-		return &EUpd{X: e.substIter(x.X, hc), F: x.F, V: e.substIter(x.V, hc)}
-	case *EStore:
-		return &EStore{X: e.substIter(x.X, hc), I: e.substIter(x.I, hc), V: e.substIter(x.V, hc)}
-	}
-	return x
 }
 
 // evaluated is an already evaluated sub-expression.
